@@ -884,6 +884,10 @@ def glue_greenlet() -> None:
 
     @unwrap_stackitem.register(GreenletType)
     def unwrap_greenlet(glet: GreenletType) -> Any:
+        if glet.dead:
+            # (asked first: a greenlet whose thread has exited is dead, but
+            # until someone asks it may still show its old gr_frame)
+            return []
         inner_frame = glet.gr_frame
         outer_frame = None
         if inner_frame is None:
